@@ -156,6 +156,29 @@ def hess_order(ctx):
                     for v in der.items())
         ok = (mo, rs) == want and I.getattr(rich, 'order') == mo and I.getattr(rich, 'step') == rs and not has_w and \
             order_obj == (1 if method in ('forward', 'backward') else 2) and tuple(shape) == (2, 2)
+        # the estimates handed to the extrapolation (a plain call, full_output off): every cell of every row is the second
+        # partial derivative plus higher order terms - f(x) itself and first derivatives cancel (so the value of f at x that
+        # the one-sided rules need really was evaluated and passed on)
+        low = []
+        try:
+            rows = der.shape[0]
+            for r in range(min(rows, 2)):
+                for c_ in range(der.shape[1]):
+                    cell = der[r, c_]
+                    if not isinstance(cell, FV):
+                        low.append('row %d cell %d is %r' % (r, c_, cell))
+                        continue
+                    sig = taylor_signature(cell, None, 2, 2)
+                    a_, b_ = divmod(c_, 2)
+                    target = tuple((1 if k == a_ else 0) + (1 if k == b_ else 0) for k in range(2))
+                    for alpha, p in sig.items():
+                        if alpha != target and not p.is_zero():
+                            low.append('row %d cell (%d,%d): D^%s f survives with weight %s' % (r, a_, b_, alpha, repr(p)[:60]))
+        except AnalysisError as exc:
+            low.append('cannot be expanded: %s' % str(exc)[:100])
+        rep.check(not low, 'R-HESS-ORDER', 'core.Hessian.__call__', core.relpath, {'terms_of_order_below_two': low[:3]},
+                  'no f(x) or first derivative term in the estimates of a plain call', 'Hessian/%s/plain call' % method,
+                  key='hess-plain-call %s' % method)
         rep.check(ok, 'R-HESS-ORDER', 'core.Hessian.__init__', core.relpath,
                   {'order': order_obj, 'method_order': mo, 'richardson_step': rs,
                    'richardson': {k: repr(rich.attrs.get(k)) for k in ('order', 'step', 'num_terms')},
